@@ -4,9 +4,11 @@ import warnings
 from harness.core import Result  # noqa: F401
 
 COMPONENTS = ["partitioner"]  # model drivers this check needs (lake targets model_<c>)
+CONSTS = ["partitioner", "client"]  # C18_listing_* are about Afkak.ClientCache.mergeTopic (imports the client's generated constants)
 TRUSTED = [
     "Java murmur2 transcription (Afkak/Murmur.lean: murmur2Java), tested against the Java client's own UtilsTest vectors by `decide +kernel`",
     "model of sorted()/itertools.cycle as insertion sort / rotating list",
+    "cross-layer stage: the simulated cluster (harness/sim/cluster.py) and its request log / metadata responses as ground truth of what the client was told and where messages were carried",
 ]
 ASSUMPTIONS = ["key length < 2^32 (a Java array cannot be longer)", "fairness is stated for ascending lists, as the property does"]
 
@@ -432,14 +434,46 @@ def producer_flow_cases(ctx, res, n):
         res.traces_validated += 1
 
 
+def corpus_cases(ctx, res):
+    """stored cross-layer scenarios (corpus/partitioner/*.json, key "c18_xl") run first"""
+    import json
+    import os
+
+    from harness.core import VERIF
+    from harness.lib import xl_c18, xl_run
+
+    d = os.path.join(VERIF, "corpus", "partitioner")
+    if not os.path.isdir(d):
+        return
+    judged = []
+    import collections
+
+    hist = collections.Counter()
+    for fn in sorted(os.listdir(d)):
+        if fn.endswith(".json"):
+            for script in json.load(open(os.path.join(d, fn))).get("c18_xl", []):
+                r = xl_run.run_script(script)
+                judged.append(xl_c18.judge(r, hist))
+                res.evaluations += 1
+                res.count("xl:corpus-scenarios")
+    xl_c18.evaluate(ctx, res, judged)
+
+
 def run(ctx, res):
+    from harness.lib import xl_c18
+
     res.rule = ("hashed: random keys (every length 0..67, long, high bytes in every tail position, text vs UTF-8) x partition lists; "
                 "non-trivial = key of >= 4 bytes (exercises the chunk loop). round-robin: random histories of selections with list "
-                "changes, random/fixed start (randint scripted); non-trivial = history of > 2 selections. distinct = by content hash.")
+                "changes, random/fixed start (randint scripted); non-trivial = history of > 2 selections. cross-layer (xl): the real "
+                "Producer over the real KafkaClient over the simulated cluster, metadata listing partitions in arbitrary order / partly "
+                "leaderless / growing / re-ordered, broker errors, leader moves, restarts, lost answers; non-trivial = a run in which a "
+                "monitor was evaluated on a message that reached a broker. distinct = by content hash.")
+    corpus_cases(ctx, res)
     hashed_cases(ctx, res, ctx.scale(1500, 40000))
     rr_cases(ctx, res, ctx.scale(400, 6000))
     producer_cases(ctx, res, ctx.scale(300, 5000))
     producer_flow_cases(ctx, res, ctx.scale(300, 5000))
+    xl_c18.stage(ctx, res, ctx.scale(2000, 40000))
 
 
 def search(ctx, res, broken):
@@ -449,6 +483,10 @@ def search(ctx, res, broken):
     rr_cases(ctx, r2, ctx.scale(1000, 10000))
     producer_cases(ctx, r2, ctx.scale(1000, 10000))
     producer_flow_cases(ctx, r2, ctx.scale(1000, 10000))
+    if not r2.monitor_failures:
+        from harness.lib import xl_c18
+
+        xl_c18.stage(ctx, r2, ctx.scale(3000, 40000))
     return r2.monitor_failures[:3]
 
 
@@ -457,6 +495,15 @@ def replay(ctx, data):
 
     f = data.get("failure", {})
     sc = f.get("scenario", {})
+    if isinstance(sc, dict) and sc.get("xl") == "c18":
+        from harness.lib import xl_c18
+
+        rc = xl_c18.replay(ctx, sc)
+        if rc:
+            print("VIOLATION property=C18 replay=(this file)")
+        else:
+            print("scenario passes on the current tree")
+        return rc
     print("replay:", sc)
     if "key_hex" in sc:
         kb = bytes.fromhex(sc["key_hex"])
